@@ -171,8 +171,10 @@ impl Prop for C16 {
         let metric = Metric::pick(&mut t);
         let dim = t.pick(&[8usize, 16, 32, 64]);
         let n = match tier {
-            Tier::Quick => t.pick(&[500usize, 800, 1200]),
-            Tier::Thorough => t.pick(&[500usize, 1000, 2000, 5000]),
+            // one case in eight crosses the batch builder's internal block sizes (> 2048, not a
+            // multiple of it); the thorough tier spans the whole 500-5,000 range
+            Tier::Quick => t.pick(&[500usize, 800, 1200, 500, 800, 1200, 1000, 2600]),
+            Tier::Thorough => t.pick(&[500usize, 1000, 2000, 5000, 2600, 3100, 4097, 700]),
         };
         Case { family, metric, dim, n, seed: t.u32() as u64 }
     }
